@@ -339,6 +339,17 @@ pub fn run_case(o: &mut Obs, spec: &Spec, ops: &[ROp], path: usize, fin: Final, 
                                 return crate::rng::fnv_u64(dg, 9);
                             }
                         }
+                        // ... and never gives up limit for bytes it did not draw: limit() may have dropped by at most
+                        // what the inner buffer lost during the refused call
+                        if let Some(la) = root.limit_opt() {
+                            let r_after = root.peek_children().first().map(|c| c.0).unwrap_or(0);
+                            let r_before = xl.saturating_sub(consumed.min(xl));
+                            let drawn = r_before.saturating_sub(r_after.min(r_before));
+                            if lb.saturating_sub(la) > drawn && root_limit.is_none() {
+                                report(o, spec, "take-limit-lost-by-refused-request", case, &format!("the refused {op:?} lowered limit() from {lb} to {la} although the inner buffer lost only {drawn} bytes; ops={ops:?}"), true);
+                                return crate::rng::fnv_u64(dg, 9);
+                            }
+                        }
                         o.inc("refused_take_checks");
                     }
                 }
